@@ -146,7 +146,8 @@ func runC07(w *World, r *Report) {
 	r.Min("R2", 12)
 	r.Min("R3", 11)
 	r.Min("R4", 3)
-	r.Min("R5", 12)
+	c07FrameLocalActions(w, r)
+	r.Min("R5", 13)
 	r.Min("R6", 18)
 }
 
@@ -678,4 +679,54 @@ func c07Encoders(w *World, r *Report) {
 			r.Fail("R6", e.typ+"/missing-flag", f.Pos(), "encoder does not set its flag %s", e.flag)
 		}
 	}
+}
+
+
+// c07FrameLocalActions: the encoded actions a handler invocation stores into
+// its frame are its own: the variable is local to the per-frame closure, not
+// shared between the concurrently running handler goroutines.
+func c07FrameLocalActions(w *World, r *Report) {
+	h := w.Fn(pkgRouting, "Handler")
+	if h == nil {
+		r.Undec("R5", "routing.Handler", token.NoPos, "function not found")
+		return
+	}
+	n := 0
+	for _, cl := range Anons(h) {
+		if cl == h {
+			continue
+		}
+		Instrs(cl, func(in ssa.Instruction) {
+			st, ok := in.(*ssa.Store)
+			if !ok {
+				return
+			}
+			fa, ok := st.Addr.(*ssa.FieldAddr)
+			if !ok || fieldName(fa.X.Type(), fa.Field) != "Actions" {
+				return
+			}
+			n++
+			shared := Derives(st.Val, func(x ssa.Value) bool {
+				if _, isFV := x.(*ssa.FreeVar); isFV {
+					return isActionsTyped(x)
+				}
+				if _, isG := x.(*ssa.Global); isG {
+					return true
+				}
+				return false
+			})
+			r.Check(!shared, "R5", "Handler/frame-actions-are-closure-local", posOf(st), "req.Actions is assigned from a variable declared inside the per-frame closure (not captured from Handler's scope or a global)")
+		})
+	}
+	if n != 1 {
+		r.Undec("R5", "Handler/frame-actions", h.Pos(), "expected one store to req.Actions in the handler closure, found %d", n)
+	}
+}
+
+func isActionsTyped(v ssa.Value) bool {
+	t := v.Type()
+	if p, ok := t.(*types.Pointer); ok {
+		t = p.Elem()
+	}
+	return strings.HasSuffix(t.String(), "action.Actions")
 }
